@@ -132,6 +132,7 @@ func init() {
 			ruleVersionLiteral(c)
 			c.Clause("C13-D2")
 			ruleEncoderWrites(c)
+			ruleConstantFormats(c)
 			ruleBareObject(c)
 			c.Clause("C13-D3")
 			ruleRawFields(c)
